@@ -634,3 +634,30 @@ Fixpoint hyp_s {A} (sigs : list (list farg)) (G : env) (st : bool * list (ident 
 
 Definition hyp_proc {A} (d : prec) (sigs : list (list farg)) (p : proc A) : bool :=
   fst (fold_left (hyp_s sigs (env_of d p)) (p_body p) (true, [])).
+
+(* ------------------------------------------------------------------ the property's own reading of one clause *)
+(* "a window passed where a dense tensor is required", judged by the DECLARED shape of the actual (the analyses
+   judge by the type recorded on the read, which set_window leaves stale) *)
+Definition decl_win_site (G : env) (a : carg) (f : farg) : bool :=
+  match f, a with
+  | FNum _ _ _ (ShDense _), ARd x _ _ => match lookup x G with Some b => shape_is_win (b_shape b) | None => false end
+  | FNum _ _ _ (ShDense _), AWn _ _ => true
+  | _, _ => false
+  end.
+
+Fixpoint decl_win_sites (G : env) (args : list carg) (fs : list farg) : bool :=
+  match args, fs with
+  | a :: args', f :: fs' => decl_win_site G a f || decl_win_sites G args' fs'
+  | _, _ => false
+  end.
+
+Fixpoint decl_win_s {A} (sigs : list (list farg)) (G : env) (s : stmt A) : bool :=
+  match s with
+  | SIf b1 b2 => existsb (decl_win_s sigs G) b1 || existsb (decl_win_s sigs G) b2
+  | SFor b => existsb (decl_win_s sigs G) b
+  | SCall f args => match nth_error sigs f with Some fs => decl_win_sites G args fs | None => false end
+  | _ => false
+  end.
+
+Definition decl_window_for_dense {A} (d : prec) (sigs : list (list farg)) (p : proc A) : bool :=
+  existsb (decl_win_s sigs (env_of d p)) (p_body p).
